@@ -233,17 +233,22 @@ Definition all_in (l:list str) (keys:list str) : bool := forallb (fun p => mem_s
 
 (* value of a symbolic argument once every parameter has a value; the numeric kind of the result is that of
    the implementation's lambdified function and is not modelled: VFlt stands for "a number" *)
-Definition inst_value (sg:list (str * term)) (v:value) : outcome value :=
+(* instantiation descends into keyword lists and arrays (the inner fix is mapM (inst_value sg), written out for
+   the guard checker; see LoadP.inst_value_list) *)
+Fixpoint inst_value (sg:list (str * term)) (v:value) : outcome value :=
+  let inst_list := fix go (l:list value) : outcome (list value) :=
+                     match l with
+                     | [] => Ok []
+                     | x :: l' => do y <- inst_value sg x; do ys <- go l'; Ok (y :: ys)
+                     end in
   match v with
   | VSym t => if all_in (term_pars t) (map fst sg) then Ok (VFlt (subst_term sg t)) else Refuse EMissingParam
+  | VList l => do l' <- inst_list l; Ok (VList l')
+  | VArr k r c elems => do es <- inst_list elems; Ok (VArr k r c es)
   | _ => Ok v
   end.
 
-Definition inst_elem (sg:list (str * term)) (v:value) : outcome value :=
-  match v with
-  | VArr k r c elems => do es <- mapM (inst_value sg) elems; Ok (VArr k r c es)
-  | _ => inst_value sg v
-  end.
+Definition inst_elem (sg:list (str * term)) (v:value) : outcome value := inst_value sg v.
 
 Definition inst_op (sg:list (str * term)) (o:op) : outcome op :=
   match oargs o with
@@ -381,7 +386,9 @@ Definition exec_item (s:st) (it:item) : outcome st :=
           match rows with
           | [] => Refuse EArrayEmpty
           | [[EPar p]] =>
-              (* the array is one template parameter: expand to p_i_j over the declared shape *)
+              (* the array is one template parameter: expand to p_i_j over the declared shape.
+                 A name already used as a scalar parameter is outside every property (scalar and array at once). *)
+              if mem_str p (s_pars s) then Unspec else
               match shape with
               | None => Refuse EArrayNoShape
               | Some sh =>
